@@ -1,6 +1,8 @@
 package chainsim
 
 import (
+	"bytes"
+	"encoding/binary"
 	"crypto/sha256"
 	"encoding/hex"
 	"fmt"
@@ -310,9 +312,15 @@ func BuildTx(kr *Keyring, s TxSpec, prior Prior) (f TxFacts) {
 	}
 	f.Decodable = true
 	if s.RawMut != "" {
-		bz = rawMutate(bz, s.RawMut)
-		f.Decodable = false
-		f.HonestSig = false
+		mb := rawMutate(bz, s.RawMut)
+		if strings.HasPrefix(s.RawMut, "unkfield") && !bytes.Equal(mb, bz) {
+			// the same transaction in a non-canonical encoding (the decoder skips unknown fields): same facts, other hash
+			bz = mb
+		} else {
+			bz = mb
+			f.Decodable = false
+			f.HonestSig = false
+		}
 	}
 	f.Bytes = bz
 	f.Hash = hex.EncodeToString(tmtypes.Tx(bz).Hash())
@@ -413,6 +421,17 @@ func rawMutate(b []byte, how string) []byte {
 		return c
 	case "append":
 		return append(append([]byte{}, b...), byte(n), byte(n>>8))
+	case "unkfield":
+		// a non-canonical encoding of the same transaction: an unknown field (number 6 + n%8, varint 1) appended
+		// inside the length-prefixed struct, length prefix adjusted
+		ln, w := binary.Uvarint(b)
+		if w <= 0 || int(ln) != len(b)-w {
+			return b
+		}
+		body := append(append([]byte{}, b[w:]...), byte((6+n%8)<<3), 1)
+		pre := make([]byte, binary.MaxVarintLen64)
+		pw := binary.PutUvarint(pre, uint64(len(body)))
+		return append(pre[:pw], body...)
 	}
 	return b
 }
